@@ -53,6 +53,16 @@ fn ledgers() -> Vec<(String, Vec<Transaction>)> {
         l.push(alpha::sell(alpha::date(2024, 2, 1), tk, "5", &format!("{}", 8 + i), "0.1"));
     }
     out.push(("5 prefix-related tickers (G, G0, GO, GOOG, GOOGL), disposals on shared dates, all still held".to_string(), l));
+    // L5: dividend income in five tax years that have no disposal, disposals in two other years
+    let mut l = vec![alpha::buy(alpha::date(2018, 5, 1), "DIV", "100", "10", "0")];
+    for (i, y) in [2021, 2019, 2023, 2020, 2022].iter().enumerate() {
+        l.push(alpha::dividend(alpha::date(*y, 7, 1), "DIV", &format!("{}", 10 + i), "1"));
+        l.push(alpha::dividend(alpha::date(*y, 11, 1), "DIV", &format!("{}", 20 + i), "0"));
+    }
+    l.push(alpha::sell(alpha::date(2018, 9, 1), "DIV", "5", "12", "0"));
+    l.push(alpha::sell(alpha::date(2024, 9, 1), "DIV", "5", "12", "0"));
+    l.push(alpha::dividend(alpha::date(2024, 10, 1), "DIV", "9", "0"));
+    out.push(("dividends in five tax years without disposals, disposals in two other years".to_string(), l));
     out
 }
 
